@@ -241,10 +241,24 @@ func (c *C04Copy) Run() string {
 		switch c.Op {
 		case "Clone":
 			cp = t.Clone().(*tensor.Dense)
-		case "Materialize":
-			m := t.Materialize().(*tensor.Dense)
+		case "Materialize", "pkgMaterialize":
+			var m *tensor.Dense
+			if c.Op == "pkgMaterialize" {
+				m = tensor.Materialize(t).(*tensor.Dense)
+			} else {
+				m = t.Materialize().(*tensor.Dense)
+			}
 			if m == t {
-				sharing = true // not a view: returns the tensor itself by documented design
+				// not a view: returns the tensor itself by documented design; a slice of another tensor is a
+				// view whatever its shape and must be copied out
+				if c.A.L.Final == "" {
+					for _, st := range c.A.L.Steps {
+						if st.Op != "T" {
+							extra = "Materialize of a slice returned the slice itself"
+						}
+					}
+				}
+				sharing = true
 			}
 			cp = m
 		case "SafeT":
@@ -459,6 +473,11 @@ func TestC04(t *testing.T) {
 			w, vk := w, vk
 			cell(t, "C04", "C04.write", w+"/"+vk, nCases(25, 800), func(rt *rapid.T) Case {
 				dts := c04DTs
+				switch w {
+				case "Memset", "Zero", "SetAtSweep", "RootSetAt", "CopyInto", "CopyIntoFlat", "CopyCross":
+					// the fills and copies have a kernel per element type (and a generic one for the others)
+					dts = append(append(append([]DT{}, c04DTs...), allDTs...), extDTs...)
+				}
 				if w == "UnsafeNeg" || w == "UnsafeAdd" || w == "UnsafeAddScalar" {
 					dts = []DT{dtInt8, dtInt16, dtF32, dtF64, dtC128, dtUint32}
 				}
@@ -484,12 +503,15 @@ func TestC04(t *testing.T) {
 			})
 		}
 	}
-	copies := []string{"Clone", "Materialize", "SafeT", "pkgT", "pkgTranspose", "CopyFresh", "CopyTo", "CopyFlatten", "ToMat64", "Native"}
+	copies := []string{"Clone", "Materialize", "pkgMaterialize", "SafeT", "pkgT", "pkgTranspose", "CopyFresh", "CopyTo", "CopyFlatten", "ToMat64", "Native"}
 	for _, op := range copies {
 		for _, sk := range c04SrcKinds {
 			op, sk := op, sk
 			cell(t, "C04", "C04.copy", op+"/"+sk, nCases(20, 600), func(rt *rapid.T) Case {
 				d := rapid.SampledFrom(c04DTs).Draw(rt, "dt")
+				if op != "Native" && op != "ToMat64" && rapid.Bool().Draw(rt, "anydt") {
+					d = rapid.SampledFrom(append(append([]DT{}, allDTs...), extDTs...)).Draw(rt, "dt2")
+				}
 				minR, maxR := 1, 4
 				switch op {
 				case "ToMat64":
